@@ -53,10 +53,15 @@ def closed_form_fail(W, v_gap, sigma2, L):
 
 
 def gen_instance(rng):
-    deg = float(rng.choice([45, 60, 75, 90, 105, 120, 135]))
+    deg = float(rng.choice([1, 2, 3, 5, 10, 20, 30, 45, 60, 75, 90, 105, 120, 135]))
     eps = float(rng.choice([0.05, 0.1, 0.2, 0.4]))
     delta = float(rng.choice([0.05, 0.1, 0.2, 0.3]))
     nv = float(rng.choice([0.0025, 0.01, 0.04, 0.25, 1.0, 2.25]))
+    if deg < 30:
+        # narrow cones: the ordering complexity beta = 1/sin(theta) is large and L grows with
+        # beta^2; keep the run affordable with a large eps and little noise
+        eps = float(rng.choice([0.5, 1.0, 2.0]))
+        nv = float(rng.choice([1e-4, 1e-3, 0.0025, 0.01]))
     eta = float(rng.choice([0.01, 0.05, 0.2]))
     return {"deg": deg, "eps": eps, "delta": delta, "noise_var": nv, "eta": eta}
 
